@@ -11,7 +11,7 @@ use std::collections::BTreeMap;
 use std::rc::Rc;
 
 /// (name, text, dependencies as pool indices)
-const POOL: [(&str, &str, &[usize]); 22] = [
+const POOL: [(&str, &str, &[usize]); 24] = [
     ("m", "?? the metre\nm !meter\n", &[]),
     ("kilo", "kilo- 1000\n", &[]),
     ("k", "k-- kilo\n", &[1]),
@@ -35,6 +35,9 @@ const POOL: [(&str, &str, &[usize]); 22] = [
     ("da", "da-- 10\n", &[]),
     ("am", "am 7 m\n", &[0]),
     ("a_x", "a_x 2 dam\n", &[0, 18, 19, 20]),
+    // references to a base unit by its long name, from names sorting before and after it
+    ("a_long", "a_long 3 meter\n", &[0]),
+    ("z_long", "z_long 5 kilometers\n", &[0, 1]),
 ];
 
 fn pool_entries(i: usize) -> Vec<DefEntry> {
@@ -161,6 +164,10 @@ const TEXTS: [&str; 7] = [
     "?? a thousand\nkilo- 1000\n",
     "stuff {\n    heaviness weight 3 foot / size 2 m\n}\n",
 ];
+/// The substance's `!symbol` directive, placed (0) directly before the substance, (1) directly
+/// after it, (2) at the end of the file that holds the substance: a directive names its substance,
+/// its position within the file carries no meaning.
+const SYMBOL_LINE: &str = "!symbol stuff St\n";
 /// cut points (i <= j) of a 7-item sequence into files [0,i) [i,j) [j,7)
 fn cuts() -> Vec<(usize, usize)> {
     let mut v = vec![];
@@ -177,8 +184,8 @@ impl C12 {
         let thorough = tier == "thorough";
         let mut subsets = closed_subsets(7);
         if !thorough {
-            // every 4th dependency-closed subset in the quick tier
-            subsets = subsets.into_iter().step_by(4).collect();
+            // every 8th dependency-closed subset in the quick tier
+            subsets = subsets.into_iter().step_by(8).collect();
         }
         let (b, dups) = bundled();
         let rot_step = if thorough { 1 } else { 24 };
@@ -188,7 +195,7 @@ impl C12 {
         fams.add("bundled database: rotations", vec![(b.len() / rot_step) as u64]);
         let rink_bin = std::env::var("RINK_BIN").ok().filter(|p| std::path::Path::new(p).exists());
         fams.add("split across files through the real binary", vec![if rink_bin.is_none() { 0 } else if thorough { 64 } else { 16 }, 2, 4]);
-        fams.add("text-level: every order of 7 snippets x every split into up to 3 files", vec![5040, cuts().len() as u64]);
+        fams.add("text-level: every order of 7 snippets x every split into up to 3 files", vec![5040, cuts().len() as u64, 3]);
         C12 {
             fams,
             subsets,
@@ -251,7 +258,7 @@ impl Space for C12 {
         Meta {
             id: "C12",
             level: "exploration",
-            rule: "(a) all 5040 permutations of every dependency-closed 7-subset (quick: every 4th) of a 22-definition pool (4-long alias chain, diamond, dependency reachable only through a prefix split / only through a plural, long+short prefixes defined through each other, quantities, a substance, category, docs); (b) the bundled database reversed, sorted by name ascending/descending, in dependency-reversed order, and under every rotation (quick: every 24th); (c) a 6-definition extension set distributed over ./definitions.units and $XDG_CONFIG_HOME/rink/definitions.units in all 2^6 assignments x both internal orders x 4 file endings (as written, no final newline, either file ending inside a `!category` block) through the real `rink --dump`; (d) text level: all 5040 orders of 7 snippets (documented and undocumented base unit, quantities, units, prefix, substance) x all 36 splits into up to 3 files, each file parsed as a file (parser state such as a pending `??` comment carries between lines), against the snippets parsed one by one. Oracle: byte-identical Debug dump of the whole Registry and identical error multiset versus the reference order. Non-trivial = all; distinct by the order used".into(),
+            rule: "(a) all 5040 permutations of every dependency-closed 7-subset (quick: every 8th) of a 24-definition pool (4-long alias chain, diamond, dependency reachable only through a prefix split / only through a plural, long+short prefixes defined through each other, quantities, a substance, category, docs); (b) the bundled database reversed, sorted by name ascending/descending, in dependency-reversed order, and under every rotation (quick: every 24th); (c) a 6-definition extension set distributed over ./definitions.units and $XDG_CONFIG_HOME/rink/definitions.units in all 2^6 assignments x both internal orders x 4 file endings (as written, no final newline, either file ending inside a `!category` block) through the real `rink --dump`; (d) text level: all 5040 orders of 7 snippets (documented and undocumented base unit, quantities, units, prefix, substance) x all 36 splits into up to 3 files x 3 positions of the substance's `!symbol` directive within its file, each file parsed as a file (parser state such as a pending `??` comment carries between lines), against the snippets parsed one by one. Oracle: byte-identical Debug dump of the whole Registry and identical error multiset versus the reference order. Non-trivial = all; distinct by the order used".into(),
             assumptions: vec![
                 "premise of the statement: uniquely named definitions - entries sharing (namespace, name) in the shipped file are reduced to their last occurrence before permuting (listed in the evidence)".into(),
                 "Debug of Registry shows every field".into(),
@@ -278,7 +285,8 @@ impl Space for C12 {
                 let (i, j) = cuts()[d[1] as usize];
                 let name = |k: &usize| ["m", "length", "foot", "yard", "area", "kilo", "stuff"][*k];
                 format!(
-                    "files: [{}] [{}] [{}]",
+                    "symbol directive {}; files: [{}] [{}] [{}]",
+                    ["before its substance", "after its substance", "at the end of its file"][d[2] as usize],
                     p[..i].iter().map(name).collect::<Vec<_>>().join(", "),
                     p[i..j].iter().map(name).collect::<Vec<_>>().join(", "),
                     p[j..].iter().map(name).collect::<Vec<_>>().join(", ")
@@ -330,6 +338,10 @@ impl Space for C12 {
                 if errs != rerrs {
                     out = out.viol("reported problems depend on definition order (generated pool)", format!("{}: {:?} vs {:?}", self.describe(idx), errs, rerrs));
                 }
+                // every pool definition is valid and every subset is dependency-closed: forward references resolve
+                if !errs.is_empty() {
+                    out = out.viol("a dependency-closed set of valid definitions does not load cleanly", format!("{}: {:?}", self.describe(idx), errs));
+                }
                 out
             }
             1 | 2 => {
@@ -370,14 +382,31 @@ impl Space for C12 {
                 let p = nth_permutation(TEXTS.len(), d[0]);
                 let (i, j) = cuts()[d[1] as usize];
                 let desc = self.describe(idx);
+                let sym_pos = d[2];
                 let rf = self.text_ref.get(|| {
-                    let defs: Vec<DefEntry> = TEXTS.iter().flat_map(|t| parse_str(t).defs).collect();
+                    let defs: Vec<DefEntry> = TEXTS.iter().flat_map(|t| if t.starts_with("stuff") { parse_str(&format!("{}{}", SYMBOL_LINE, t)).defs } else { parse_str(t).defs }).collect();
                     let (dump, errs) = load_dump(defs);
                     (dump, errs)
                 });
                 let mut defs = vec![];
                 for part in [&p[..i], &p[i..j], &p[j..]] {
-                    let text: String = part.iter().map(|k| TEXTS[*k]).collect();
+                    let mut text = String::new();
+                    let mut has_stuff = false;
+                    for k in part.iter() {
+                        if TEXTS[*k].starts_with("stuff") {
+                            has_stuff = true;
+                            match sym_pos {
+                                0 => text.push_str(&format!("{}{}", SYMBOL_LINE, TEXTS[*k])),
+                                1 => text.push_str(&format!("{}{}", TEXTS[*k], SYMBOL_LINE)),
+                                _ => text.push_str(TEXTS[*k]),
+                            }
+                        } else {
+                            text.push_str(TEXTS[*k]);
+                        }
+                    }
+                    if has_stuff && sym_pos == 2 {
+                        text.push_str(SYMBOL_LINE);
+                    }
                     defs.extend(parse_str(&text).defs);
                 }
                 let (dump, errs) = load_dump(defs);
